@@ -381,3 +381,17 @@ Theorem C03_distributions_py_cdf_zero_at_zero :
     TreeHeightDistribution_cdf OpsR expm (length Slast) (all_epochs Ss Slast) alpha e [:: 0%QQ] = [:: 0].
 Proof. exact: source_cdf_zero_at_zero. Qed.
 Print Assumptions C03_distributions_py_cdf_zero_at_zero.
+
+(* the density of the translated source (pinned pdf applied to the translated cdf) is non-negative, any demography, any dx > 0 *)
+From PG Require Import gen.MarginalsGen analysis.SourcePdf.
+Theorem C03_distributions_py_pdf_of_the_source_cdf_nonneg :
+  forall expm : seq (seq R) -> seq (seq R),
+    (forall n A, wf n n A -> wf n n (expm A) /\ mx_of n n (expm A) = mexp (mx_of n n A)) ->
+  forall (n : nat) (Ss : seq (Q * seq (seq R))) (Slast : seq (seq R)) (alpha e : seq R) (q99 dx : Q) (ts : seq Q),
+    List.Forall (fun x : Q * seq (seq R) => is_generator n x.2 /\ abs_closed n x.2 e) Ss ->
+    is_generator n Slast -> abs_closed n Slast e -> is_prob n alpha -> is_01 n e ->
+    epochs_wf (seq (seq R)) 0%QQ Ss -> (0 < dx)%QQ ->
+    List.Forall (fun x : R => Rle R0 x)
+      (TreeHeightDistribution_pdf OpsR (TreeHeightDistribution_cdf OpsR expm (length Slast) (all_epochs Ss Slast) alpha e) q99 ts (Some dx)).
+Proof. exact: source_pdf_nonneg. Qed.
+Print Assumptions C03_distributions_py_pdf_of_the_source_cdf_nonneg.
